@@ -34,6 +34,7 @@ def blankMax (opt n : Nat) : Nat := blankHelper Gen.blankMaxCmp opt n
 def prologueExpected : List BW := [
   { target := "-", kind := "continue", opts := [], guards := ["pc->IsNot(CT_NEWLINE)"] },
   { target := "-", kind := "continue", opts := [], guards := ["prev->IsNotNullChunk()", "prev->Is(CT_IGNORED)"] },
+  { target := "-", kind := "continue", opts := [], guards := ["next->Is(CT_IGNORED)"] },
   { target := "pc", kind := "plus1", opts := [], guards := ["pc == Chunk::GetHead() || next->IsNullChunk()"] },
   { target := "pc", kind := "max", opts := ["nl_max"],
     guards := ["(options::nl_max() > 0) && (pc->GetNlCount() > options::nl_max())"] },
@@ -44,7 +45,7 @@ def epilogueExpected : BW :=
   { target := "pc", kind := "minus1", opts := [], guards := ["line_added && pc->GetNlCount() > 1"] }
 
 /-- the guarded writes between the `can_increase_nl` test and the final "−1" -/
-def midOf (ws : List BW) : List BW := (ws.drop 6).dropLast
+def midOf (ws : List BW) : List BW := (ws.drop 7).dropLast
 
 /-- a middle entry is a write of an option value to `pc` or to `tmp` (or a `continue` of an inner search loop) -/
 def midEntryOk (w : BW) : Bool :=
@@ -52,7 +53,7 @@ def midEntryOk (w : BW) : Bool :=
   ((w.kind = "set" || w.kind = "raw" || w.kind = "max") && (w.target = "pc" || w.target = "tmp") && !w.opts.isEmpty)
 
 def shapeOk (ws : List BW) : Bool :=
-  decide (ws.take 6 = prologueExpected) && decide (ws.getLast? = some epilogueExpected) && (midOf ws).all midEntryOk
+  decide (ws.take 7 = prologueExpected) && decide (ws.getLast? = some epilogueExpected) && (midOf ws).all midEntryOk
 
 /-- functions the loop may call: accessors, predicates, logging, the two helpers -/
 def knownCallees : List String :=
@@ -96,7 +97,7 @@ def visitSelf (σ : Sigma) (mid : List BW) (edge canInc : Bool) (fires : List (O
 
 /-! ## the whole pass over the newline chunks of the list -/
 
-/-- a newline chunk: its count, and whether the loop skips it (its previous non-comment chunk is `CT_IGNORED`) -/
+/-- a newline chunk: its count, and whether the loop skips it (its previous non-comment chunk or its next chunk is `CT_IGNORED`) -/
 structure NlCell where
   n : Nat
   skip : Bool
